@@ -14,7 +14,7 @@ class C01:
     level = "exploration"
     design_ref = "DESIGN.md 3.1"
     tiers = {"quick": {"runs": 2000, "budget_s": 80, "chunk": 8, "twice_every": 8, "shrink_s": 60},
-             "thorough": {"runs": 40000, "budget_s": 840, "chunk": 8, "twice_every": 16, "shrink_s": 180}}
+             "thorough": {"runs": 120000, "budget_s": 840, "chunk": 8, "twice_every": 16, "shrink_s": 180}}
     rule = ("one run = one (experiment spec, execution configuration, schedule): 1-3 environment groups built through the "
             "public Environments API (synthetic / class-based sources, shared chunk()/cache() prefixes, shuffle fan-out, "
             "take/slice/scale/noise/params/batch/reservoir/where/sort), 1-3 learners (built-in and stateful / PMF / kwargs harness "
